@@ -27,12 +27,13 @@ P(i) == "p" \o ToString(i)
 Rnd(S) == RandomElement(S)
 SockSet == IF MODE = "dual" THEN {"X4", "Y4", "X6", "Y6", "L4"} ELSE {"X4", "Y4", "L4"}
 Sim == /\ DEPTH > 0 /\ UNCHANGED <<votes, local, seq, announced>>
-       /\ IF hist = <<>> THEN hist' = <<[o |-> "reset", mode |-> MODE, vote_min |-> Rnd({2, 3})]>>
+       /\ IF hist = <<>> THEN hist' = <<[o |-> "reset", mode |-> MODE, vote_min |-> Rnd({2, 3}), vote_dur |-> 120]>>
           ELSE IF Len(hist) <= 7 THEN hist' = Append(hist, [o |-> "established", rec |-> P(Len(hist)) \o ":1:" \o (IF MODE = "dual" THEN "both" ELSE "v4"), dir |-> Rnd({"Out", "Out", "Out", "In"})])
           ELSE hist' = Append(hist, Rnd({[o |-> "response_in", req |-> "@" \o P(Rnd(1..7)), body |-> [t |-> "pong", seq |-> 1, sock |-> Rnd(SockSet)]],
                                           [o |-> "response_in", req |-> "@" \o P(Rnd(1..7)), body |-> [t |-> "pong", seq |-> 1, sock |-> Rnd(SockSet)]],
                                           [o |-> "response_in", req |-> "@" \o P(Rnd(1..7)), body |-> [t |-> "pong", seq |-> 1, sock |-> Rnd(SockSet)]],
                                           [o |-> "advance", ms |-> 36001000],
+                                          [o |-> "age", ms |-> Rnd({40000, 80000, 121000})],
                                           [o |-> "fail", req |-> "@" \o P(Rnd(1..7))]}))
 MCNext == IF DEPTH > 0 THEN Sim ELSE Tick \/ \E v \in Voters, a \in ADDRS : Pong(v, a)
 Spec == Init /\ [][MCNext]_vars
